@@ -57,8 +57,19 @@ class T:
                         return (f"(({a_[0]}).length : Q)", "Q")
                 a_ = self.val(inner, env)
                 if a_[1] == "A": return (f"(npSum {a_[0]})", "Q")
+        if isinstance(e, ast.Call) and isinstance(e.func, ast.Attribute) and e.func.attr == "item" and not e.args and isinstance(e.func.value, ast.Call) \
+                and ast.unparse(e.func.value.func) in ("np.min", "np.max") and len(e.func.value.args) == 1:
+            a_ = self.val(e.func.value.args[0], env)
+            if a_[1] == "A": return (f"(np{ast.unparse(e.func.value.func)[3:].capitalize()} {a_[0]})", "Q")
+        if isinstance(e, ast.Call) and ast.unparse(e.func) == "np.ones_like" and len(e.args) == 1:
+            a_ = self.val(e.args[0], env)
+            if a_[1] == "A": return (f"(npOnesLike {a_[0]})", "A")
+        if isinstance(e, ast.Call) and ast.unparse(e.func) == "len" and len(e.args) == 1 and isinstance(e.args[0], ast.Name) and env.get(e.args[0].id, ("", ""))[1] == "A":
+            return (f"((({env[e.args[0].id][0]}).length : Nat) : Q)", "Q")
         if isinstance(e, ast.BinOp):
             l, r = self.val(e.left, env), self.val(e.right, env)
+            if isinstance(e.op, ast.Sub) and l[1] == "Q" and r[1] == "Q": return (f"({l[0]} - {r[0]})", "Q")
+            if isinstance(e.op, ast.Div) and l[1] == "A" and r[1] == "Q": return (f"(npDivScalar {l[0]} {r[0]})", "A")
             if isinstance(e.op, ast.Sub) and l[1] == "A" and r[1] == "Q": return (f"(npSubScalar {l[0]} {r[0]})", "A")
             if isinstance(e.op, ast.Add) and l[1] == "A" and r[1] == "Q": return (f"(npAddScalar {l[0]} {r[0]})", "A")
             if isinstance(e.op, ast.Add) and l[1] == "Q" and r[1] == "Q": return (f"({l[0]} + {r[0]})", "Q")
@@ -77,7 +88,10 @@ class T:
 
     def block(self, stmts, env, ind):
         pad = "  " * ind
-        if not stmts: raise Unsupported("function ends without a return")
+        if not stmts:
+            fv = getattr(self, "final_var", None)
+            if fv and env.get(fv, ("", ""))[1] == "A": return f"{pad}{env[fv][0]}"
+            raise Unsupported("function ends without a return" if not fv else f"`{fv}` is not an array at the end of the block")
         s, rest = stmts[0], list(stmts[1:])
         if isinstance(s, ast.Expr) and isinstance(s.value, ast.Constant): return self.block(rest, env, ind)
         if isinstance(s, ast.Assert): return self.block(rest, env, ind)
@@ -100,6 +114,9 @@ class T:
                 self.fresh += 1; nm = f"{t.id}"
                 return f"{pad}let {nm} := {term}\n" + self.block(rest, {**env, t.id: (nm, ty)}, ind)
             raise Unsupported(f"line {s.lineno}: {ast.unparse(s)[:80]}")
+        if isinstance(s, ast.AugAssign) and isinstance(s.op, ast.Div) and isinstance(s.target, ast.Name) and env.get(s.target.id, ("", ""))[1] == "A":
+            r = self.val(s.value, env)
+            if r[1] == "Q": return f"{pad}let {s.target.id} := npDivScalar {env[s.target.id][0]} {r[0]}\n" + self.block(rest, {**env, s.target.id: (s.target.id, "A")}, ind)
         if isinstance(s, ast.AugAssign) and isinstance(s.op, (ast.Add, ast.Sub)):
             op = "Add" if isinstance(s.op, ast.Add) else "Sub"
             t = s.target
@@ -147,6 +164,10 @@ class T:
                 finally:
                     if key: ATOMS[key] = saved
                 return f"{pad}match {term} with\n{pad}  | some {nm} =>\n{th}\n{pad}  | none =>\n{el}"
+        if isinstance(test, ast.Compare) and len(test.ops) == 1 and isinstance(test.ops[0], ast.Gt) and ast.unparse(test.comparators[0]) == "0":
+            a_ = self.val(test.left, env)
+            if a_[1] == "Q":
+                return (f"{pad}if {a_[0]} > 0 then\n" + self.block(list(body) + rest, env, ind + 1) + f"\n{pad}else\n" + self.block(list(orelse) + rest, env, ind + 1))
         raise Unsupported(f"line {lineno}: test `{ast.unparse(test)}`")
 
 def translate(src_root):
@@ -160,5 +181,23 @@ def translate(src_root):
             + "".join(f"    - {n}\n" for n in dict.fromkeys(t.notes)) + "-/\nset_option linter.unusedVariables false\nnamespace LK.Gen.ImpC08\nopen LK.NpOps LK.ArrayOps\n\n")
     return head + f"def computeForItems {PARAMS} : List Q × Option Q :=\n{body}\n\nend LK.Gen.ImpC08\n"
 
+def translate_linear(src_root):
+    """the `linear` transform of `StochasticTopNRanker.__call__` (stochastic/_ranker.py): scores → selection weights"""
+    rel = "stochastic/_ranker.py"; src = open(os.path.join(src_root, rel)).read(); mod = ast.parse(src)
+    cls = next(c for c in mod.body if isinstance(c, ast.ClassDef) and c.name == "StochasticTopNRanker")
+    fn = [m for m in cls.body if isinstance(m, ast.FunctionDef) and m.name == "__call__"][-1]
+    mt = next((n for n in ast.walk(fn) if isinstance(n, ast.Match) and ast.unparse(n.subject) == "self.config.transform"), None)
+    if mt is None: raise Unsupported("no `match self.config.transform`")
+    case = next((c for c in mt.cases if isinstance(c.pattern, ast.MatchValue) and isinstance(c.pattern.value, ast.Constant) and c.pattern.value.value == "linear"), None)
+    if case is None: raise Unsupported("no `linear` case")
+    t = T(); t.final_var = "weights"
+    body = t.block(list(case.body), {"scores": ("scores", "A")}, 1)
+    seg = ast.get_source_segment(src, mt)
+    return ("import LK.Model.NpOps\nimport LK.Model.Stochastic\n/-! GENERATED by translate/py2lean_imp.py on every run of `./check C19`; do not edit.\n"
+            f"* `linearWeightsT` ← {rel} StochasticTopNRanker.__call__ (the `linear` case), source sha256/64 {hashlib.sha256(seg.encode()).hexdigest()[:16]}\n"
+            + "".join(f"    - {n}\n" for n in dict.fromkeys(t.notes)) + "-/\nset_option linter.unusedVariables false\nnamespace LK.Gen.ImpC19\nopen LK.NpOps\n\n"
+            f"def linearWeightsT (scores : List Q) : List Q :=\n{body}\n\nend LK.Gen.ImpC19\n")
+
 if __name__ == "__main__":
+    if len(sys.argv) > 1 and sys.argv[1] == "linear": print(translate_linear(sys.argv[2] if len(sys.argv) > 2 else "/repo/src/lenskit")); sys.exit(0)
     print(translate(sys.argv[1] if len(sys.argv) > 1 else "/repo/src/lenskit"))
